@@ -398,6 +398,20 @@ pub async fn run_pair() {
     let sdone: Slot<()> = Slot::new();
     let rdone: Slot<()> = Slot::new();
     let rcv = if rcv_second { ReceiverSettleMode::Second } else { ReceiverSettleMode::First };
+    let first_only_acceptor = !client_sends && choice(3) == 0;
+    // a link in the other direction on the same session, its receiver settling second: the two
+    // directions count their delivery-ids separately, both from 0
+    let reverse: u64 = if client_sends && rcv_second && late.is_none() && choice(2) == 1 { 1 + choice(3) as u64 } else { 0 };
+    let rev_results: Rc<RefCell<Vec<String>>> = Rc::new(RefCell::new(Vec::new()));
+    let rev_done: Slot<()> = Slot::new();
+    if reverse > 0 {
+        sim::append_config(&format!(" reverse-link-deliveries={}", reverse));
+        sim::probe("session-used-in-both-directions");
+    }
+    if first_only_acceptor {
+        sim::append_config(" listener-link-acceptor=rcv-settle-mode-first-only");
+        sim::probe("acceptor-supporting-first-only");
+    }
     // listener side
     {
         let plan2 = plan.clone();
@@ -406,10 +420,22 @@ pub async fn run_pair() {
         let outs2 = outs.clone();
         let sdone2 = sdone.clone();
         let rdone2 = rdone.clone();
+        let rev_results2 = rev_results.clone();
+        let rev_done2 = rev_done.clone();
         sim::spawn(
             "listener-session",
             sim::in_group(2, async move {
-                let acceptor = LinkAcceptor::new();
+                // one listener in three says it supports rcv-settle-mode first only (falling back to it): what
+                // the link negotiates is its business, but a receiver that goes on to report unsettled outcomes
+                // is owed the settling echo all the same
+                let acceptor = if first_only_acceptor {
+                    LinkAcceptor::builder()
+                        .supported_receiver_settle_modes(fe2o3_amqp::acceptor::SupportedReceiverSettleModes::First)
+                        .fallback_receiver_settle_mode(ReceiverSettleMode::First)
+                        .build()
+                } else {
+                    LinkAcceptor::new()
+                };
                 match sim::op("link accept", acceptor.accept(&mut lsess)).await {
                     Some(Ok(LinkEndpoint::Sender(s))) => spawn_sender(s, plan2, slog2, smode, sdone2, plain_allowed, None),
                     Some(Ok(LinkEndpoint::Receiver(mut r))) => {
@@ -422,6 +448,37 @@ pub async fn run_pair() {
                         return;
                     }
                     None => return,
+                }
+                if reverse > 0 {
+                    match sim::op("reverse link accept", acceptor.accept(&mut lsess)).await {
+                        Some(Ok(LinkEndpoint::Sender(mut s))) => {
+                            let (rr, rd) = (rev_results2.clone(), rev_done2.clone());
+                            sim::spawn("listener-reverse-sender", async move {
+                                let mut futs = Vec::new();
+                                for i in 0..reverse {
+                                    match sim::op(&format!("reverse send {}", i), s.send_batchable(msgs::gen_message(88_000 + i, 100, 1))).await {
+                                        Some(Ok(f)) => futs.push(f),
+                                        Some(Err(e)) => rr.borrow_mut().push(format!("send failed: {:?}", e)),
+                                        None => return,
+                                    }
+                                }
+                                for (i, f) in futs.into_iter().enumerate() {
+                                    match sim::op(&format!("reverse outcome {}", i), f).await {
+                                        Some(r) => rr.borrow_mut().push(format!("{:?}", r)),
+                                        None => return,
+                                    }
+                                }
+                                rd.put(());
+                                std::future::pending::<()>().await;
+                                drop(s);
+                            });
+                        }
+                        Some(other) => {
+                            sim::violation("attach-failed", format!("reverse link accept: {:?}", other.map(|_| ())));
+                            return;
+                        }
+                        None => return,
+                    }
                 }
                 let _ = tokio::time::timeout(std::time::Duration::from_secs(3600), lsess.on_end()).await;
             }),
@@ -479,6 +536,29 @@ pub async fn run_pair() {
             None => return,
         }
     }
+    if reverse > 0 {
+        match sim::op("attach reverse receiver", sim::in_group(1, Receiver::builder().name("rev").source("q").receiver_settle_mode(ReceiverSettleMode::Second).credit_mode(CreditMode::Auto(10)).attach(&mut csess))).await {
+            Some(Ok(mut r)) => {
+                sim::spawn("client-reverse-receiver", async move {
+                    for _ in 0..reverse {
+                        match r.recv::<fe2o3_amqp::types::messaging::Body<Value>>().await {
+                            Ok(d) => {
+                                let _ = r.accept(&d).await;
+                            }
+                            Err(_) => break,
+                        }
+                    }
+                    std::future::pending::<()>().await;
+                    drop(r);
+                });
+            }
+            Some(Err(e)) => {
+                sim::violation("attach-failed", format!("reverse receiver: {:?}", e));
+                return;
+            }
+            None => return,
+        }
+    }
     if sim::op("receiver application", rdone.take()).await.is_none() {
         return;
     }
@@ -503,6 +583,16 @@ pub async fn run_pair() {
     judge_sender(&slog, &plan);
     if sim::has_violation() {
         return;
+    }
+    if reverse > 0 {
+        if sim::op("reverse sender application", rev_done.take()).await.is_none() {
+            return;
+        }
+        let rr = rev_results.borrow();
+        if rr.len() as u64 != reverse || rr.iter().any(|r| !r.contains("Accepted")) {
+            sim::violation("wrong-outcome", format!("the client accepted the {} deliveries of the link in the other direction; their sends resolved as {:?}", reverse, *rr));
+            return;
+        }
     }
     // let the settling echoes reach the wire
     world::quiesce_pair(&pair.net).await;
